@@ -129,6 +129,7 @@ def _status_kind(st):
 
 
 # ------------------------------------------------------------------ part F
+@_bsp.guarded(lambda bad: (bad, 'bad:check-exception', True, None))
 def check_fit(case, pre=None):
     """One well-posed fit.  -> (list of (sig, msg), outcome, nontrivial)"""
     x, s = make_sset(case)
@@ -189,6 +190,7 @@ def linear_verdict(case, cond, cg, cp, csum):
     return bad, 'ok:linear' + (':zw' if len(case['zero']) else ':full') if not bad else 'bad:' + bad[0][0]
 
 
+@_bsp.guarded(lambda bad: bad)
 def check_linear(case):
     """Replay form: response to the generic vector == sum of responses to unit vectors; zero-weight y irrelevant."""
     x, s = make_sset(case)
@@ -222,6 +224,7 @@ def check_linear(case):
 
 
 # ------------------------------------------------------------------ part I
+@_bsp.guarded(lambda bad: (bad, 'bad:check-exception'))
 def check_illposed(case, pre=None):
     x, s = make_sset(case)
     k = case['k']
@@ -312,6 +315,7 @@ def is_success(first):
     return isinstance(first, (int, np.integer)) and not isinstance(first, (bool, np.bool_)) and int(first) == -1
 
 
+@_bsp.guarded(lambda bad: bad)
 def check_chol(case):
     from pydl.pydlutils.bspline import cholesky_band, cholesky_solve
     n, bw = case['n'], case['bw']
@@ -471,8 +475,14 @@ def run_task(task):
         subsets = [z for z in subsets if ((0 in z), (1 in z)) == want]
     for kn in knots:
         base0 = {'fam': fam, 'n': n, 'k': k, 'knots': kn}
-        _x, s0 = make_sset(dict(base0))
-        t = np.asarray(s0.breakpoints, dtype=np.float64)
+        try:
+            _x, s0 = make_sset(dict(base0))
+            t = np.asarray(s0.breakpoints, dtype=np.float64)
+        except Exception as e:      # constructor trouble is C08's subject; record and move on
+            case = dict(base0, part='I', zero=[], wpat=0)
+            acc.case(_bsp.ckey(case), True, 'bad:constructor', sample=case)
+            acc.violation('fit:constructor-exception:' + type(e).__name__, case, repr(e))
+            continue
         for z in subsets:
             for wpat in task['wpats']:
                 if wpat == 1 and len(z) > (4 if task.get('tier') == 'thorough' else 2):
